@@ -1401,6 +1401,10 @@ class SoC(LiteXModule, SoCCoreCompat):
 
         # Add CSRs regions.
         for name, csrs, mapaddr, rmap in self.csr_bankarray.banks:
+            if len(rmap.simple_csrs) > self.csr.paging//4:
+                self.logger.error("CSR Bank {} {} its {} Locations page.".format(
+                    colorer(name), colorer("exceeds", color="red"), colorer(self.csr.paging//4)))
+                raise SoCError()
             self.csr.add_region(name, SoCCSRRegion(
                 origin   = (self.bus.regions["csr"].origin + self.csr.paging*mapaddr),
                 busword  = self.csr.data_width,
